@@ -60,6 +60,15 @@ fn resolution_class(spec: &Spec) -> String {
 // ----------------------------------------------------------------------------------------------
 // (1) deadline landing
 
+/// scripted letters go to the goal sampler when the goal bias is 1 (then every sample is a goal sample)
+fn push_letters<K: Kit>(rig: &Rig<K>, letters: &[u8]) {
+    if rig.sc.params.bias >= 1.0 {
+        rig.goal.script.borrow_mut().extend_from_slice(letters);
+    } else {
+        rig.space.push_script(letters);
+    }
+}
+
 fn landing_tree<K: Kit>(sc: &Scenario, seq: &[u8], rep: &mut Report) {
     let pk = sc.params.pk.name();
     let d = seq.len();
@@ -67,7 +76,7 @@ fn landing_tree<K: Kit>(sc: &Scenario, seq: &[u8], rep: &mut Report) {
     let refrun = guarded(|| {
         let mut rig = Rig::<K>::new(sc, true);
         let base = seams::seq_now(); // callbacks made by setup() (RRT-Connect draws its goal root there)
-        rig.space.push_script(seq);
+        push_letters(&rig, seq);
         let r = rig.drv.solve(iters(d));
         (seams::seq_now(), r.is_ok(), base)
     });
@@ -83,7 +92,8 @@ fn landing_tree<K: Kit>(sc: &Scenario, seq: &[u8], rep: &mut Report) {
             seams::set_landing(j);
             let mut script = seq.to_vec();
             script.extend_from_slice(&[seq[0]; 3]);
-            rig.space.push_script(&script);
+            push_letters(&rig, &script);
+            rig.goal.strict_script.set(rig.sc.params.bias >= 1.0); // a skipped landing must still end the call
             let r = rig.drv.solve(Duration::from_secs(1));
             let landed = seams::landed();
             let marks = seams::sample_marks();
@@ -129,7 +139,7 @@ fn landing_tree<K: Kit>(sc: &Scenario, seq: &[u8], rep: &mut Report) {
         let mut rig = Rig::<K>::new(sc, true);
         let mut script = seq.to_vec();
         script.extend_from_slice(&[seq[0]; 3]);
-        rig.space.push_script(&script);
+        push_letters(&rig, &script);
         let before = seams::sample_marks().len(); // setup may have drawn a goal root
         let r = rig.drv.solve(Duration::ZERO);
         (r.is_ok(), seams::sample_marks().len() - before, r.err())
@@ -294,6 +304,96 @@ fn infeasible_case<K: Kit>(sc: &Scenario, seq: &[u8], rep: &mut Report) {
     }
 }
 
+/// (3b) the planner object is first set up and driven in the obstacle-free world, then set up again
+/// with the infeasible world's checker: whatever survives the re-setup must not produce a path.
+fn infeasible_after_feasible_life<K: Kit>(sc: &Scenario, seq: &[u8], rep: &mut Report) {
+    let pk = sc.params.pk.name();
+    rep.count("evaluations", 1);
+    rep.count("transitions", 2 * seq.len() as u64);
+    let run = guarded(|| {
+        let mut rig = Rig::<K>::new(sc, false);
+        seams::set_valid_cap(50_000_000);
+        let free = std::sync::Arc::new(crate::scen::build_world::<K>(&sc.spec, &WorldSpec { name: "free".into(), obst: vec![] }));
+        rig.drv.setup(rig.pd.clone(), free);
+        if rig.is_prm() {
+            let _ = rig.construct(seq);
+            let _ = rig.drv.solve(LONG);
+        } else {
+            let _ = rig.feed(seq);
+        }
+        let (pd, w) = (rig.pd.clone(), rig.world.clone());
+        rig.drv.setup(pd, w);
+        if rig.is_prm() {
+            let _ = rig.construct(seq);
+            vec![rig.drv.solve(LONG).map(|p| p.len())]
+        } else {
+            rig.feed(seq).into_iter().map(|(r, _)| r.map(|p| p.len())).collect::<Vec<_>>()
+        }
+    });
+    match run {
+        Err(c) => caught_to_report(sc, "infeasible-after-feasible-life", seq, c, rep),
+        Ok(results) => {
+            rep.count("infeasible_after_feasible_life_cases", 1);
+            for r in results {
+                if let Ok(n) = r {
+                    rep.violate(format!("C06|{pk}|path-claimed-in-infeasible-world|after-feasible-life|{}", sc.world.name), format!("after a re-setup in an infeasible world ({}) a path of {n} states was returned", sc.world.name), || replay(sc, "infeasible-after-feasible-life", seq, json!({})));
+                    return;
+                }
+            }
+        }
+    }
+}
+
+/// (3c) infeasible worlds under the real samplers and the seeded generator: seed lattice x chunks of iterations.
+fn infeasible_seeded<K: Kit>(sc0: &Scenario, _depth: usize, rep: &mut Report) {
+    let pk = sc0.params.pk.name();
+    for seed in 0..12u64 {
+        let mut sc = sc0.clone();
+        sc.params.seed = Some(seed);
+        sc.params.bias = 0.2;
+        rep.count("evaluations", 1);
+        let run = guarded(|| {
+            let mut rig = Rig::<K>::new(&sc, true);
+            rig.pass_through();
+            rig.goal_mode(crate::seams::GoalMode::Rng);
+            seams::set_valid_cap(50_000_000);
+            let mut out = Vec::new();
+            if rig.is_prm() {
+                rig.drv.set_prm_timeout(crate::drv::iters_secs(150));
+                let _ = rig.drv.construct_roadmap();
+                out.push(rig.drv.solve(LONG).map(|p| p.len()));
+            } else {
+                for _ in 0..3 {
+                    oxmpl::verif::clock_reset(1_000_000);
+                    out.push(rig.drv.solve(iters(60)).map(|p| p.len()));
+                }
+            }
+            out
+        });
+        match run {
+            Err(c) => return caught_to_report(&sc, "infeasible-seeded", &[], c, rep),
+            Ok(results) => {
+                rep.count("infeasible_seeded_runs", 1);
+                rep.count("transitions", 180);
+                for r in results {
+                    match r {
+                        Ok(n) => {
+                            rep.violate(format!("C06|{pk}|path-claimed-in-infeasible-world|seeded|{}", sc.world.name), format!("seed {seed}: a path of {n} states was returned although no valid path to the goal exists ({})", sc.world.name), || replay(&sc, "infeasible-seeded", &[], json!({"seed": seed})));
+                            return;
+                        }
+                        Err(e) => {
+                            if !matches!(e, PlanningError::Timeout | PlanningError::NoSolutionFound | PlanningError::UnsampledStateSpace) {
+                                rep.violate(format!("C06|{pk}|infeasible-wrong-error:{}", err_name(&e)), format!("infeasible world reported as {}", err_name(&e)), || replay(&sc, "infeasible-seeded", &[], json!({"seed": seed})));
+                                return;
+                            }
+                        }
+                    }
+                }
+            }
+        }
+    }
+}
+
 // ----------------------------------------------------------------------------------------------
 
 #[derive(Clone)]
@@ -334,7 +434,18 @@ fn jobs(tier: &str) -> Vec<Job> {
                 for rm in radii {
                     let step = if pk == Pk::Prm { 1.6 } else { 1.0 };
                     let sc = b.scenario(w.clone(), b.params(pk, step, rm, 0.0), &format!("C06/landing/{kit}/{}/{}", w.name, pk.name()));
-                    out.push(Job { sc, part: 1, letters: if thorough { b.sub4.clone() } else { b.sub3.clone() }, depth: if thorough { 4 } else { 3 } });
+                    out.push(Job { sc, part: 1, letters: b.sub4.clone(), depth: if thorough { 5 } else { 3 } });
+                    if thorough && deep {
+                        let sc = b.scenario(w.clone(), b.params(pk, step, rm, 0.0), &format!("C06/landing-full-alphabet/{kit}/{}/{}", w.name, pk.name()));
+                        out.push(Job { sc, part: 1, letters: (0..b.alphabet.len() as u8).collect(), depth: 3 });
+                    }
+                }
+                // goal bias 1: every sample comes from the goal sampler, so the deadline also lands
+                // inside goal-sampler callbacks (letters index the goal samples)
+                if pk != Pk::Prm {
+                    let mut sc = b.scenario(w.clone(), b.params(pk, 0.6, 2.5, 1.0), &format!("C06/landing-bias1/{kit}/{}/{}", w.name, pk.name()));
+                    sc.alphabet = sc.goal_samples.clone();
+                    out.push(Job { sc, part: 1, letters: (0..b.goal_samples.len() as u8).collect(), depth: if thorough { 6 } else { 4 } });
                 }
             }
             // (2) work cap over the resolution lattice (the setters accept and store these)
@@ -362,7 +473,14 @@ fn jobs(tier: &str) -> Vec<Job> {
                             (true, true) => 4,
                             (true, false) => 3,
                         };
-                        out.push(Job { sc, part: 3, letters: (0..b.alphabet.len() as u8).collect(), depth });
+                        out.push(Job { sc: sc.clone(), part: 3, letters: (0..b.alphabet.len() as u8).collect(), depth });
+                        if sm == 1.0 && root == 0 {
+                            // the same planner object first lives in the obstacle-free world (tree / roadmap
+                            // built there), then is set up again in the infeasible one
+                            out.push(Job { sc: sc.clone(), part: 4, letters: b.sub4.clone(), depth: if thorough { 5 } else { 4 } });
+                            // real samplers and seeded generator, a lattice of seeds, hundreds of iterations
+                            out.push(Job { sc, part: 5, letters: vec![0], depth: 1 });
+                        }
                     }
                 }
             }
@@ -383,11 +501,13 @@ fn run_job<K: Kit>(job: &Job, rep: &mut Report) {
                 }
             }
             2 => work_cap_case::<K>(&job.sc, seq, rep),
+            4 => infeasible_after_feasible_life::<K>(&job.sc, seq, rep),
+            5 => infeasible_seeded::<K>(&job.sc, job.depth, rep),
             _ => infeasible_case::<K>(&job.sc, seq, rep),
         }
         rep.distinct.insert(h128(&[job.part as u64, h128(&job.sc.tag.bytes().map(|b| b as u64).collect::<Vec<_>>()) as u64, h128(&seq.iter().map(|x| *x as u64).collect::<Vec<_>>()) as u64]));
     });
-    let part_name = ["", "deadline landing in every callback", "work cap per call", "infeasible world"][job.part as usize];
+    let part_name = ["", "deadline landing in every callback", "work cap per call", "infeasible world", "infeasible world after a life in the free world", "infeasible world, seeded deep runs"][job.part as usize];
     rep.sample(|| json!({"scenario": job.sc.tag, "part": part_name, "letters": job.letters, "depth": job.depth}));
 }
 
@@ -419,7 +539,7 @@ pub fn run(tier: &'static str) -> i32 {
             "time is logical: the bound `T plus one iteration` is decided as `the deadline is consulted before every iteration and nothing but the rest of the current iteration runs after it has passed` plus `one iteration is finite` (DESIGN 1.3)".into(),
             "a sampler call is the first action of every iteration in all four planners".into(),
         ],
-        must_be_positive: vec!["landings", "landing_timeouts", "landing_successes_in_the_same_iteration", "landed_in_callback_kind_0", "landed_in_callback_kind_2", "landed_in_callback_kind_3", "zero_timeout_calls", "work_cap_cases", "infeasible_Timeout", "infeasible_NoSolutionFound"],
+        must_be_positive: vec!["landings", "landing_timeouts", "landing_successes_in_the_same_iteration", "landed_in_callback_kind_0", "landed_in_callback_kind_1", "landed_in_callback_kind_2", "landed_in_callback_kind_3", "infeasible_after_feasible_life_cases", "infeasible_seeded_runs", "zero_timeout_calls", "work_cap_cases", "infeasible_Timeout", "infeasible_NoSolutionFound"],
     };
     finish(&meta, rep, t0)
 }
